@@ -107,6 +107,23 @@ let handle kind a =
              | _ -> failwith "region") regions in
            Some ("Q=" ^ (if ans = [] then "_" else String.concat ";" ans))
        | e -> Some ("Q=" ^ fmt_res e))
+  | "mqbad" ->
+      (* as mqry, with the landmark of entry a.(9) of the index replaced by a non-landmark *)
+      let f = parse_mfile a.(6) (parse_recs a.(3)) in
+      (match index_m (n_of_dec a.(4)) f with
+       | Ok es ->
+           let es = bump_landmark (nat_of_int (int_of_string a.(9))) es in
+           let nrefs = n_of_int (List.length (split_on ',' a.(1))) in
+           let regions = if a.(7) = "_" then [] else split_on ';' a.(7) in
+           let ans = List.map (fun t ->
+             match split_on ':' t with
+             | [r; lo; hi] ->
+                 (match query_region_m nrefs es f (n_of_dec r) (opt lo) (opt hi) with
+                  | Ok l -> fmt_names l
+                  | e -> fmt_res e)
+             | _ -> failwith "region") regions in
+           Some ("Q=" ^ (if ans = [] then "_" else String.concat ";" ans))
+       | e -> Some ("Q=" ^ fmt_res e))
   | "via" ->
       let f = parse_mfile a.(6) (parse_recs a.(3)) in
       (match index_m (n_of_dec a.(4)) f with
